@@ -26,6 +26,8 @@ def in_scope2(cfg):
         return False
     if cfg.get('ps') is not None and any(cfg['ps']):
         return False
+    if any(x.get('kind') == 'jockey_alt' for r in (cfg.get('routing') or []) if isinstance(r, dict) and r.get('kind') == 'nr' for x in r['routers']):
+        return False        # the harness's stateful jockeying router is not part of the model
     return True
 
 
